@@ -63,7 +63,11 @@ template <class X> struct Runner {
             if (ctl.outstanding() != base_out) { Str key = fmt("fault/%s/%s/leak-after-cleanup%s", X::tag(), CALLNAME[p.call], k == 0 ? "-fault-free" : ""), det = what + fmt(" %zu block(s) outstanding", ctl.outstanding() - base_out);
                 c->violation("C14", key, det); c->violation("C13", key, det); ctl.drop_all(); }
             if (ctl.bad_free()) { Str key = fmt("fault/%s/%s/bad-release", X::tag(), CALLNAME[p.call]), det = what + (ctl.L ? " " + ctl.L->bad_free_note : Str(" libc free of unknown pointer"));
-                c->violation("C14", key, det); c->violation("C13", key, det); ctl.clear_events(); }
+                c->violation("C14", key, det); c->violation("C13", key, det);
+                // the released pointer is a block of one of the read-only inputs (they live under a manager of their own): the call, or the
+                // cleanup it obliges the caller to make, takes a const argument apart
+                if (ctl.L && inputsLedger.live.count(ctl.L->last_bad_ptr)) c->violation("C12", fmt("fault/%s/%s/block-of-read-only-input-released", X::tag(), CALLNAME[p.call]), det);
+                ctl.clear_events(); }
             if (ctl.L) ctl.L->drain_quarantine();
             // C13 on the failure paths too: with a custom manager nothing may go to the C library allocator
             if (ctl.L && lwAll.available && (lwAll.allocs != lw_allocs0 || lwAll.frees != lw_frees0 || lwAll.bad_free != lw_bad0)) {
@@ -93,7 +97,7 @@ template <class X> struct Runner {
                 else rc = p.dflt ? X::RemoveBaseUri(&d, &A.u, &B.u, p.flag) : X::RemoveBaseUriMm(&d, &A.u, &B.u, p.flag, ctl.mm());
             }
             after("free dest");
-            if (deep_snapshot<X>(A.u) != sa || deep_snapshot<X>(B.u) != sb) c->violation("C14", fmt("fault/%s/%s/const-input-modified", X::tag(), CALLNAME[p.call]), what);
+            if (deep_snapshot<X>(A.u) != sa || deep_snapshot<X>(B.u) != sb) { c->violation("C14", fmt("fault/%s/%s/const-input-modified", X::tag(), CALLNAME[p.call]), what); c->violation("C12", fmt("fault/%s/%s/const-input-modified", X::tag(), CALLNAME[p.call]), what); }
             { LibScope ls; if (p.dflt) X::FreeUriMembers(&d); else X::FreeUriMembersMm(&d, ctl.mm()); }
             verdict(); return true; }
         case C_NORMALIZE: case C_MAKEOWNER: {
